@@ -3,6 +3,7 @@ import Goflow.Gen.C05
 import Goflow.Gen.C03
 import Goflow.Gen.C04
 import Goflow.Gen.C07
+import Goflow.Gen.C11
 import Goflow.Gen.C09
 import Goflow.Gen.C08
 import Goflow.Gen.C06
@@ -115,6 +116,7 @@ def genOps (prop : String) (seed n : Nat) : List String :=
   | "C03" => Gen.run seed (Gen.C03.gen n)
   | "C04" => Gen.run seed (Gen.C04.gen n)
   | "C07" => Gen.run seed (Gen.C07.gen n)
+  | "C11" => Gen.run seed (Gen.C11.gen n)
   | "C09" => Gen.run seed (Gen.C09.gen n)
   | "C08" => Gen.run seed (Gen.C08.gen n)
   | "C06" => Gen.run seed (Gen.C06.gen n)
